@@ -158,7 +158,7 @@ def main():
     dead = [r for r in res if not r.get("ok")]
     evaluations = sum(r.get("evaluations", 0) for r in res if r.get("ok"))
     distinct = set()
-    obs, mon, skipped, samples, violations, inconcl = {}, {}, {}, [], [], []
+    obs, mon, skipped, samples, violations, inconcl, hard = {}, {}, {}, [], [], [], []
     for r in res:
         if not r.get("ok"):
             continue
@@ -171,6 +171,7 @@ def main():
                 samples.append(s)
         violations.extend(r["violations"])
         inconcl.extend(r["inconclusive"])
+        hard.extend(r.get("hard_inconclusive", []))
     if extra:
         merge_obs(obs, extra.get("obs", {}))
         violations.extend(extra.get("violations", []))
@@ -207,6 +208,9 @@ def main():
         if evaluations == 0:
             status = "inconclusive"
             problems.append("no executions observed")
+    if hard:
+        status = "inconclusive"
+        problems += [f"could not judge: {x}" for x in hard[:5]]
     if new_v:
         status = "violated"
 
